@@ -129,7 +129,7 @@ def gen_target(rng, kind: str) -> dict:
     t = {
         "name": name + suffix,
         "missing_parents": rng.choice([0, 0, 0, 1, 2, 3]),
-        "style": rng.choice(["str", "str", "Path", "Path", "tilde", "tilde", "relative", "relative", "symdotdot"]),
+        "style": rng.choice(["str", "str", "Path", "Path", "tilde", "tilde", "relative", "relative", "symdotdot", "fspath", "dotslash"]),
         "pre": rng.choice(["absent", "absent", "file", "file", "earlier", "empty"]),
     }
     if t["missing_parents"]:
@@ -371,6 +371,19 @@ def resolve_target(sb: Sandbox, t: dict, op_index: int):
         ab = os.path.join(real, *parents, t["name"])
         return os.path.join(link, "..", *parents, t["name"]), ab
     ab = os.path.join(sb.out, *parents, t["name"])
+    if style == "fspath":
+        class _PathLike:  # any os.PathLike is a legitimate path argument
+            def __init__(self, p):
+                self._p = p
+
+            def __fspath__(self):
+                return self._p
+
+        return _PathLike(ab), ab
+    if style == "dotslash":
+        # redundant but legal spelling: extra separators and '.' components
+        d, b = os.path.split(ab)
+        return d + os.sep + "." + os.sep + os.sep + b, ab
     return (Path(ab) if style == "Path" else ab), ab
 
 
